@@ -280,3 +280,75 @@ fn c10_shorthand_fields_keep_names_and_values_paired() {
     if form == 1 || form == 3 { assert!(dd.get() == 1 && dg.get() == 0, "C10.shorthand.percent_renders_Display"); }
     kani::cover!(form == 0, "C10.reachable.debug_shorthand_last");
 }
+
+// the level-named shorthands (`error!` .. `trace!`, `error_span!` .. `trace_span!`) are separate macros with their own arms
+// for every prefix form: each evaluates its field expression exactly once iff a callsite OF ITS OWN LEVEL is enabled - the
+// stage is chosen relative to the level the macro's name promises, so a shorthand that expands to another level is asked
+// for fields while disabled (or stays silent while enabled)
+#[kani::proof]
+#[kani::unwind(8)]
+#[kani::stub(core::fmt::Formatter::pad, pad_stub)]
+#[kani::stub(tracing_core::dispatch::get_default, get_default_stub)]
+#[kani::stub(tracing_core::metadata::LevelFilter::current, current_stub)]
+#[kani::stub(tracing_core::callsite::register, register_stub)]
+fn c10_level_named_event_shorthands_evaluate_once_iff_enabled_at_their_own_level() {
+    let x: u64 = nd();
+    let s = new_st();
+    let which: u8 = nd(); kani::assume(which < 5);
+    let (d, on) = stage(which + 1, &s);
+    CUR_DISPATCH.store(&d as *const Dispatch as usize, AO::SeqCst);
+    let evals = Cell::new(0u32);
+    let pre: bool = nd();
+    match (which, pre) {
+        (0, false) => crate::error!(alpha = { evals.set(evals.get() + 1); x }),
+        (0, true) => crate::error!(target: "t", alpha = { evals.set(evals.get() + 1); x }),
+        (1, false) => crate::warn!(alpha = { evals.set(evals.get() + 1); x }),
+        (1, true) => crate::warn!(target: "t", alpha = { evals.set(evals.get() + 1); x }),
+        (2, false) => crate::info!(alpha = { evals.set(evals.get() + 1); x }),
+        (2, true) => crate::info!(target: "t", alpha = { evals.set(evals.get() + 1); x }),
+        (3, false) => crate::debug!(alpha = { evals.set(evals.get() + 1); x }),
+        (3, true) => crate::debug!(target: "t", alpha = { evals.set(evals.get() + 1); x }),
+        (_, false) => crate::trace!(alpha = { evals.set(evals.get() + 1); x }),
+        (_, true) => crate::trace!(target: "t", alpha = { evals.set(evals.get() + 1); x }),
+    }
+    kani::cover!(on && which == 1, "C10.reachable.warn_enabled"); kani::cover!(!on && which == 4 && pre, "C10.reachable.trace_target_disabled");
+    if on {
+        assert!(evals.get() == 1 && s.events.load(AO::SeqCst) == 1 && s.n.load(AO::SeqCst) == 1 && saw(&s, 0, b'a', K_U64, x as usize), "C10.event.level_shorthands.evaluated_and_visited_exactly_once_when_enabled_at_the_named_level");
+    } else {
+        assert!(evals.get() == 0 && s.events.load(AO::SeqCst) == 0 && s.n.load(AO::SeqCst) == 0, "C10.event.level_shorthands.nothing_evaluated_when_disabled_at_the_named_level");
+    }
+}
+#[kani::proof]
+#[kani::unwind(8)]
+#[kani::stub(core::fmt::Formatter::pad, pad_stub)]
+#[kani::stub(tracing_core::dispatch::get_default, get_default_stub)]
+#[kani::stub(tracing_core::metadata::LevelFilter::current, current_stub)]
+#[kani::stub(tracing_core::callsite::register, register_stub)]
+fn c10_level_named_span_shorthands_evaluate_once_iff_enabled_at_their_own_level() {
+    let x: u64 = nd();
+    let s = new_st();
+    let which: u8 = nd(); kani::assume(which < 5);
+    let (d, on) = stage(which + 1, &s);
+    CUR_DISPATCH.store(&d as *const Dispatch as usize, AO::SeqCst);
+    let evals = Cell::new(0u32);
+    let pre: bool = nd();
+    let sp = match (which, pre) {
+        (0, false) => crate::error_span!("s", alpha = { evals.set(evals.get() + 1); x }),
+        (0, true) => crate::error_span!(target: "t", "s", alpha = { evals.set(evals.get() + 1); x }),
+        (1, false) => crate::warn_span!("s", alpha = { evals.set(evals.get() + 1); x }),
+        (1, true) => crate::warn_span!(parent: None, "s", alpha = { evals.set(evals.get() + 1); x }),
+        (2, false) => crate::info_span!("s", alpha = { evals.set(evals.get() + 1); x }),
+        (2, true) => crate::info_span!(target: "t", parent: None, "s", alpha = { evals.set(evals.get() + 1); x }),
+        (3, false) => crate::debug_span!("s", alpha = { evals.set(evals.get() + 1); x }),
+        (3, true) => crate::debug_span!(target: "t", "s", alpha = { evals.set(evals.get() + 1); x }),
+        (_, false) => crate::trace_span!("s", alpha = { evals.set(evals.get() + 1); x }),
+        (_, true) => crate::trace_span!(parent: None, "s", alpha = { evals.set(evals.get() + 1); x }),
+    };
+    core::mem::forget(sp);
+    kani::cover!(on && which == 3, "C10.reachable.debug_span_enabled"); kani::cover!(!on && which == 0, "C10.reachable.error_span_disabled");
+    if on {
+        assert!(evals.get() == 1 && s.spans.load(AO::SeqCst) == 1 && s.n.load(AO::SeqCst) == 1 && saw(&s, 0, b'a', K_U64, x as usize), "C10.span.level_shorthands.evaluated_and_visited_exactly_once_when_enabled_at_the_named_level");
+    } else {
+        assert!(evals.get() == 0 && s.spans.load(AO::SeqCst) == 0 && s.n.load(AO::SeqCst) == 0, "C10.span.level_shorthands.nothing_evaluated_when_disabled_at_the_named_level");
+    }
+}
